@@ -336,4 +336,66 @@ example : ∃ K, WFS Toy.laws (nthR 3) K ∧
 
 end
 
+/-! ## What is missing for the language-level statement (work package "scope refinement", C05 stretch)
+
+The property says: invoking a continuation `k` with `v` — from anywhere, any number of times —
+continues the computation *as if the original `call/cc` expression had just returned `v`*. The
+theorems above are about machine states. A statement over a source-level semantics needs the
+following pieces; (S) exist in spirit, (M) are the missing lemmas, in dependency order.
+
+(S1) A CPS-style definitional semantics for the scope-skeleton language of C02
+     (`Marwood.Scope.Expr`, interpreter `Marwood.Spec.Scope`) extended by `callcc (f : Expr)`:
+     `evalK : Nat → Chain → Expr → Kont → M Val` with a defunctionalised continuation
+     `Kont = List KFrame`, `KFrame ::= args (done : List Val) (todo : Exprs) (fn : Expr) ρ
+     | fn (vs : List Val) ρ | body (rest : Exprs) ρ | defs x (rest : Defs) (body : Exprs) ρ
+     | set site x ρ | loop … | each …`, a value `Val.cont (κ : Kont)`, and the two clauses
+     `evalK ρ (callcc f) κ = evalK ρ f (fn-frame applying the result to [cont κ] :: κ)` and
+     `applyK (cont κ') [v] κ = resume κ' v` (κ is dropped). In this semantics the property is the
+     definition: `k v` *is* `resume κ v`, and a receiver that returns `v` normally also reaches
+     `resume κ v`. For `callcc`-free terms `evalK ρ e [] = Spec.Scope.eval ρ e` (adequacy, routine).
+(S2) `refinement_partial` (Proofs/C02.lean): variables of the model evaluator and of the scope-chain
+     interpreter agree; its simulation relation (`β`, `StRel`, `ActRel`) is what the heap part of the
+     relation below has to be.
+
+(M1) `KRep κ s` — "machine state `s` (stack cells `0..=sp`, `ep`, `bp`, `ip`) represents the
+     continuation `κ`" — by recursion on `κ` over the frame layout of `Vm.Compile`: an `args`
+     frame is the block of already evaluated operands on the stack, a `fn`/`body`/`defs` frame is a
+     return header `argc, ep, ip, bp` (the five cells `ret_of_receiver_frame` reads) whose `ip`
+     points behind the `CALL` in the compiled code of the enclosing expression and whose `ep` is an
+     activation environment related (`ActRel`) to the frame's chain `ρ`.
+     Missing lemma `KRep_ext`: `KRep κ s` depends only on `stack[0..=s.sp]`, `ep`, `bp`, `ip` and the
+     heap relation; it is stable along `Evolves` / `Ext` (T02.3 `location_survives`) and under a
+     collection (C03: a continuation reachable from the roots keeps `ip.0`, `ep` and the referents
+     of its stack copy alive — T05.5).
+(M2) `step_frame` (the machine does not look above `sp`): two states that agree on `acc`, `ep`,
+     `bp`, `ip`, heap and on the stack cells `≤ sp` take the same step and agree again in that
+     sense. This turns "`capture_then_invoke` and `ret_of_receiver_frame_verified` reach states with
+     the same `sp₀`, `ep`, `ip`, `bp`, `acc = v`" into "the rest of the run is the same"; today this
+     is an informal sentence in the note of `ret_of_receiver_frame`.
+(M3) `prefix_unwritten`: along a `Trace` of the receiver (as in `receiver_return_is_invocation`) no
+     cell `≤ sp₀` is written, so at the receiver's `RET` the live prefix equals the captured one
+     (`lib/props/c05.py` lists this as not separately proved). Follows from WF-stack preservation
+     (`step_preserves`) plus a write-set lemma per instruction (`PUSH`, `MOV` to a stack operand,
+     `ENTER`, `CALL`'s frame construction write only at indices `> bp` of the current frame).
+(M4) `compile_callcc_site`: for the operand code `Vm.Compile` emits for `(call/cc f)` at a position
+     with continuation `κ`: if `KRep κ s` holds with `sp₀ = s.sp - 2` when `builtinCallcc` runs, the
+     continuation object `c` of `callcc_captures` satisfies `ContRep κ c` (:= `KRep κ` of the state
+     `invoke_restores` rebuilds from `c`), using `Captures c s sp₀` and `KRep_ext`.
+(M5) `compile_simulates` (one step of compiler correctness, the stage-2/3 ingredient of T01.3): if the
+     code at `ip` is the compilation of `e` in a context related to `ρ`, and `KRep κ s`, then the
+     machine run from `s` and `evalK ρ e κ` reach related outcomes; the `callcc` case is (M4) + the
+     re-executed `CALL` of `callcc_captures`, the application of a `cont` value is
+     `capture_then_invoke` + (M1) + (M2), a normally returning receiver is
+     `ret_of_receiver_frame_verified` + (M3) + (M2); all other cases are the C02 simulation
+     (`Lemmas/EnvRefineStep*.lean`) re-done on the instruction level instead of on `Vm.EnvRun`.
+
+With (M1)–(M5) the language-level theorem for ONE `call/cc` site reads: for every program `P` of
+the extended skeleton language, `run (compile P)` on the machine and `evalK` agree on the printed
+outcomes and the read / write log, hence escape (`k` invoked inside the receiver's extent),
+re-entry (`k` invoked after the receiver returned) and a stored `k` invoked from a later top-level
+form all continue with `resume κ v`. None of (M1)–(M5) is proved; (M2) and (M3) are the cheapest
+(statements about `Vm.step` only) and would already close the gap the note of `lib/props/c05.py`
+names ("that the stack cells below the receiver's frame are unchanged at return time is not
+separately proved"). -/
+
 end Marwood.Proofs.C05
